@@ -1,5 +1,7 @@
 """C20 - permutation helpers satisfy the algebra the rest of the library assumes."""
+import collections
 import itertools
+import math
 import random as pyrandom
 
 from common import cnl, cnll, czl, czll, cz, clist, cbool, cpair
@@ -209,6 +211,21 @@ def run(ctx):
             for v in sorted(variants):
                 enum_inputs.append((n, list(v)))
     enum_inputs += [(0, []), (3, [2, 2]), (4, [2, 1]), (3, [3, 0]), (2, [0, 2]), (5, [5, 1])]
+    # beyond 8 symbols (CPython's small-set iteration order stops being sorted there): classes small enough to list, checked for size,
+    # duplicates and cycle type as well as against the model
+    big_enum = [(9, [2, 1, 1, 1, 1, 1, 1, 1]), (9, [3, 3, 3]), (10, [2, 1, 1, 1, 1, 1, 1, 1, 1]), (9, [1, 1, 1, 1, 1, 2, 2]), (11, [2] + [1] * 9), (9, [3, 1, 1, 1, 1, 1, 1])]
+    for n, lens in big_enum[: ctx.budget(4, 6)]:
+        r = pu.permutations_with_cycle_lenghts(n, list(lens))
+        cnt = collections.Counter(lens)
+        expect = math.factorial(n)
+        for k_, m_ in cnt.items():
+            expect //= k_ ** m_ * math.factorial(m_)
+        distinct = len({tuple(p_) for p_ in r})
+        if len(r) != expect or distinct != len(r) or any(cycle_type_py(p_) != sorted(lens) for p_ in r[:500]):
+            ctx.violation("property_fails", f"permutations_with_cycle_lenghts({n}, {lens}) returned {len(r)} permutations ({distinct} distinct); the class has {expect}",
+                          {"oracle": "enum_count", "n": n, "lens": lens}, True)
+        ctx.count("enum_large_n_classes")
+    enum_inputs += big_enum[: ctx.budget(4, 6)]
     for n, lens in enum_inputs:
         try:
             r = pu.permutations_with_cycle_lenghts(n, list(lens))
